@@ -8,6 +8,7 @@ package main
 import (
 	"bytes"
 	"context"
+	"encoding/json"
 	"flag"
 	"fmt"
 	"io"
@@ -166,6 +167,13 @@ func gen(seed uint64, tier string) {
 	for k := 0; k < n/10; k++ {
 		hs = append(hs, randType(r))
 	}
+	// decoded values stay what they were when further bodies are decoded (byte slices and strings, every text type)
+	for _, ct := range []string{"text/plain", "text/html", "application/json", "text/plain; charset=utf-8"} {
+		for _, side := range []string{"req", "resp"} {
+			fmt.Printf("keep %s %s %s %s T 0\n", side, lp.Enc(ct), lp.Enc("first message, long enough to matter"), lp.Enc("SECOND"))
+			fmt.Printf("keep %s %s %s %s T 0\n", side, lp.Enc(ct), lp.Enc("ab"), lp.Enc("a much longer second message than the first one"))
+		}
+	}
 	for _, h := range hs {
 		fmt.Printf("reqdec %s %s\n", lp.Enc(h), pmTable(h))
 		fmt.Printf("reqenc %s T 0\n", lp.Enc(h))
@@ -257,6 +265,49 @@ func run(toks []string) string {
 			return fmt.Sprintf("dec=unsupported:%s status=%d", lp.Enc(ct), st)
 		}
 		return "dec=" + k + " status=-"
+	case "keep":
+		// decode two bodies one after the other into values of their own; the first value must not change
+		side, ct, b1, b2 := toks[1], lp.MustDec(toks[2]), lp.MustDec(toks[3]), lp.MustDec(toks[4])
+		body := func(s string) string {
+			if strings.HasPrefix(ct, "application/json") {
+				j, _ := json.Marshal(s)
+				return string(j)
+			}
+			return s
+		}
+		decode := func(s string, v any) error {
+			if side == "req" {
+				req := httptest.NewRequest("POST", "/", strings.NewReader(body(s)))
+				req.Header.Set("Content-Type", ct)
+				return goahttp.RequestDecoder(req).Decode(v)
+			}
+			resp := &http.Response{Header: http.Header{"Content-Type": []string{ct}}, Body: io.NopCloser(strings.NewReader(body(s)))}
+			return goahttp.ResponseDecoder(resp).Decode(v)
+		}
+		res := "keep=ok"
+		if !strings.HasPrefix(ct, "application/json") {
+			var v1, v2 []byte
+			if err := decode(b1, &v1); err != nil {
+				return "keep=error:" + lp.Enc(err.Error())
+			}
+			if err := decode(b2, &v2); err != nil {
+				return "keep=error:" + lp.Enc(err.Error())
+			}
+			if string(v1) != b1 || string(v2) != b2 {
+				res = "keep=bytes-changed"
+			}
+		}
+		var s1, s2 string
+		if err := decode(b1, &s1); err != nil {
+			return "keep=error:" + lp.Enc(err.Error())
+		}
+		if err := decode(b2, &s2); err != nil {
+			return "keep=error:" + lp.Enc(err.Error())
+		}
+		if s1 != b1 || s2 != b2 {
+			res = "keep=string-changed"
+		}
+		return res
 	case "reqenc":
 		h := lp.MustDec(toks[1])
 		req := httptest.NewRequest("POST", "/", nil)
